@@ -26,7 +26,7 @@ ASSUMPTIONS = ['floats compared to 1e-6 relative (the mirrored optimiser traject
                'residual_mean on the scale of residual_std', 'island polarity class decided from the image with the forced '
                'rms by aegmon/refs/floodfill.py']
 MIN_REACH = {'source_finder:SourceFinder.find_sources_in_image': 1}
-MIN_COUNTERS = {'rows_compared_sign_symmetry': 50, 'filter_sets_checked': 5, 'single_polarity_islands_compared': 20}
+MIN_COUNTERS = {'island_rows_compared_sign_symmetry': 30, 'rows_compared_sign_symmetry': 50, 'filter_sets_checked': 5, 'single_polarity_islands_compared': 20}
 BATCHES_PER_JOB = 2
 KEY_MIXED = 'mixed-polarity-island'
 FLOATS = ['ra', 'dec', 'a', 'b', 'pa', 'err_ra', 'err_dec', 'err_peak_flux', 'err_int_flux', 'err_a', 'err_b', 'err_pa',
@@ -77,10 +77,16 @@ def _find(fn, case, aux, nopositive=False, nonegative=False):
     return sf.find_sources_in_image(fn, **kw)
 
 
+ISLAND_COLS = ['island', 'components', 'ra', 'dec', 'ra_str', 'dec_str', 'peak_flux', 'int_flux', 'background', 'local_rms',
+               'pixels', 'x_width', 'y_width', 'max_angular_size', 'area', 'eta']
+ISLAND_ROWS = {}
+
+
 def _split(srcs):
     from AegeanTools.models import ComponentSource, IslandSource
     comps = [catalog_inv.as_row(s) for s in srcs if isinstance(s, ComponentSource)]
     isles = {s.island: [int(v) for v in s.extent] for s in srcs if isinstance(s, IslandSource)}
+    ISLAND_ROWS[id(isles)] = {s.island: catalog_inv.as_row(s, ISLAND_COLS) for s in srcs if isinstance(s, IslandSource)}
     return comps, isles
 
 
@@ -197,6 +203,31 @@ def run(case):
                 bad = _row_asymmetry(o, x, y, track=not m)
                 if bad:
                     o.violate('sign_symmetry', dict(w, differences=bad, row=x, row_negated=y), mech)
+        # ---- the island summary rows of the two runs: same place, same pixels, fluxes negated
+        ra_rows, rb_rows = ISLAND_ROWS.pop(id(ia), {}), ISLAND_ROWS.pop(id(ib), {})
+        for isl in sorted(set(ra_rows) & set(rb_rows)):
+            if mixed_a.get(isl) is not False:
+                continue
+            x, y = ra_rows[isl], rb_rows[isl]
+            o.count('island_rows_compared_sign_symmetry')
+            diff = {}
+            for k in ISLAND_COLS:
+                a_, b_ = x[k], y[k]
+                if k in ('peak_flux', 'int_flux', 'background'):
+                    b_ = -b_ if b_ is not None else b_
+                if isinstance(a_, float) and isinstance(b_, float):
+                    if np.isnan(a_) and np.isnan(b_):
+                        continue
+                    if k in ('ra', 'dec'):
+                        okk = abs(a_ - b_) <= 1e-9          # the position of one and the same pixel
+                    else:
+                        okk = abs(a_ - b_) <= 1e-6 * max(abs(a_), abs(b_), 1e-300)
+                else:
+                    okk = a_ == b_
+                if not okk:
+                    diff[k] = [x[k], y[k]]
+            if diff:
+                o.violate('island_row_sign_symmetry', dict(ctx, island=isl, extent=ia.get(isl), differences=diff))
         # ---- filters
         P = _guard(o, ctx, lambda: _find(pos, case, aux_p, nopositive=False, nonegative=True))
         N = _guard(o, ctx, lambda: _find(pos, case, aux_p, nopositive=True, nonegative=False))
@@ -256,6 +287,20 @@ def _row_asymmetry(o, x, y, track=True):
     for the error columns (PA and its error are not judged when the reported PA error exceeds 5 deg: no angle there).
     """
     bad = {}
+
+    def unconstrained(r):
+        for v_, e_ in (('a', 'err_a'), ('b', 'err_b'), ('peak_flux', 'err_peak_flux')):
+            ev, vv = r[e_], r[v_]
+            if ev is None or vv is None or not np.isfinite(ev) or ev <= 0 or ev > 0.5 * abs(vv):
+                return True
+        return False
+    if unconstrained(x) or unconstrained(y):
+        # the fit itself says (in either run) that a shape or flux error is unknown or larger than half the quantity:
+        # a near-singular problem whose solution moves with the last bit of the arithmetic; only the flags are compared
+        o.count('rows_with_unconstrained_fit_not_judged')
+        if int(x['flags']) != int(y['flags']):
+            bad['flags'] = [x['flags'], y['flags']]
+        return bad
     for v, e in VALUE_ERR:
         a, b = x[v], y[v]
         if v in ('peak_flux', 'int_flux'):
